@@ -400,8 +400,20 @@ def _wellformed_codes():
     seps = st.lists(st.sampled_from([[["op", 0xab]], [["op", 0xab], ["op", 0xab]], [["d", "ab", "direct"]], [["d", "abab", "min"]]]), max_size=2)
     base = st.one_of(G.stmt_list(1), G.stmt_list(2), st.just([]),
                      st.just([["op", 0x76], ["op", 0xa9], ["d", "11" * 20, "min"], ["op", 0x88], ["op", 0xac]]))
-    return st.builds(lambda a, s1, b, s2: clean(a + [t for s in s1 for t in s] + b + [t for s in s2 for t in s]),
-                     base, seps, base, seps)
+    grammar = st.builds(lambda a, s1, b, s2: clean(a + [t for s in s1 for t in s] + b + [t for s in s2 for t in s]),
+                        base, seps, base, seps)
+    # script codes that are byte-for-byte a standard output script or witness program (the digest commits to whatever
+    # bytes it is given; nothing may be recognised and rewritten), with any 20 / 32 byte payload
+    def std(kind, h):
+        h20, h32 = (h * 2)[:40], (h * 4)[:64]
+        return {"p2pkh": [["raw", "76a914" + h20 + "88ac"]], "p2sh": [["raw", "a914" + h20 + "87"]], "p2wpkh": [["raw", "0014" + h20]],
+                "p2wsh": [["raw", "0020" + h32]], "p2tr": [["raw", "5120" + h32]], "v1-20": [["raw", "5114" + h20]],
+                "p2pk": [["raw", "21" + "02" + h32 + "ac"]], "nulldata": [["raw", "6a14" + h20]],
+                "msig": [["raw", "5121" + "02" + h32 + "21" + "03" + h32 + "52ae"]], "0-21": [["raw", "0015" + h20 + "00"]]}[kind]
+    standard = st.builds(std, st.sampled_from(["p2pkh", "p2sh", "p2wpkh", "p2wpkh", "p2wsh", "p2tr", "v1-20", "p2pk", "nulldata", "msig", "0-21"]),
+                         st.binary(min_size=20, max_size=20).map(bytes.hex))
+    from gen.common import weighted
+    return weighted((6, grammar), (1, standard))
 
 
 def _txs():
